@@ -458,7 +458,7 @@ def extra(ctx, prop):
         for i in range(ctx.scale(60, 1500)):
             script = E.gen_script(ctx.rng, focus="C16")
             script = [st for st in script if st["op"] != "raise"] + [{"op": "pad", "n": ctx.rng.choice([10, 60, 150, 400])}]
-            one(ctx, script, ctx.rng.randrange(1 << 30), prop, component="engine.large_final", crash_p=0.15, fault_p=0.05,
+            one(ctx, script, ctx.rng.randrange(1 << 30), prop, component="engine.large_final", crash_p=0.0, fault_p=0.0,
                 limits={"ckpt_limit": 200, "resp_limit": ctx.rng.choice([100, 149, 150, 151, 1000])})
     if prop == "C12":
         from harness import comp_strategy
